@@ -1,8 +1,397 @@
 (* C20 -- lemmas about the triangle model (coq/Model/C20.v). *)
 From Coq Require Import ZArith List Bool Reals Lra Lia Permutation.
-From PAV Require Import Base.Res Base.Check Base.NumOps Base.Sum Model.C20.
+From PAV Require Import Base.Res Base.Check Base.NumOps Base.Sum Model.C20 Model.C20Spec.
 Import ListNotations.
+Local Open Scope R_scope.
+
+Ltac rsimp :=
+  repeat progress (unfold child_a, child_b, child_c, child_d, m01, m12, m20, refl0, refl1, refl2,
+    new_v0, new_v1, new_v2, mid, phalf, padd, psub, cross_sum, signed2, comb, midpoint, tri_area,
+    v0, v1, v2, two, half, one, quarter, four, three, zero in *);
+  cbn [add sub mul div opp ofZ ROps fst snd T] in *.
 
 Lemma up_sample_length {O : NumOps} (ts : list (@tri O)) :
   length (up_sample_triangles ts) = (4 * length ts)%nat.
 Proof. unfold up_sample_triangles. rewrite !app_length, !map_length. lia. Qed.
+
+(* ------------------------------------------------------------------ one triangle: areas *)
+Definition children4 (t : rtri) : list rtri := [child_a t; child_b t; child_c t; child_d t].
+
+Lemma cross_sum_signed2 (t : rtri) : @cross_sum ROps t = signed2 t.
+Proof. destruct t as [[[x0 y0] [x1 y1]] [x2 y2]]. rsimp. ring. Qed.
+
+Lemma child_signed2 (t c : rtri) : In c (children4 t) -> signed2 c = signed2 t / 4.
+Proof.
+  destruct t as [[[x0 y0] [x1 y1]] [x2 y2]]. unfold children4.
+  intros [H|[H|[H|[H|[]]]]]; subst c; rsimp; field.
+Qed.
+
+Lemma absT_Rabs (x : R) : @absT ROps x = Rabs x.
+Proof.
+  unfold absT, zero. cbn [ltb opp ofZ ROps]. unfold Rabs.
+  destruct (Rltb x 0) eqn:E; rbool; destruct (Rcase_abs x); lra.
+Qed.
+
+Lemma total_area_app l1 l2 : total_area (l1 ++ l2) = total_area l1 + total_area l2.
+Proof. induction l1; cbn; lra. Qed.
+
+Lemma area_is_total_area (ts : list rtri) : @area ROps ts = total_area ts.
+Proof.
+  unfold area. rewrite sumT_sumR. unfold half, one, two. cbn [mul div ofZ ROps].
+  induction ts as [|t ts IH]; cbn [map sumR total_area]; [lra|].
+  rewrite absT_Rabs, cross_sum_signed2. unfold tri_area. lra.
+Qed.
+
+Lemma tri_area_child (t c : rtri) : In c (children4 t) -> tri_area c = tri_area t / 4.
+Proof.
+  intros H. unfold tri_area. rewrite (child_signed2 t c H).
+  unfold Rdiv. rewrite Rabs_mult, (Rabs_right (/ 4)) by lra. ring.
+Qed.
+
+Lemma total_area_map_child (f : rtri -> rtri) ts :
+  (forall t, In (f t) (children4 t)) -> total_area (map f ts) = total_area ts / 4.
+Proof.
+  intros Hf. induction ts as [|t ts IH]; cbn [map total_area]; [lra|].
+  rewrite IH, (tri_area_child t (f t) (Hf t)). lra.
+Qed.
+
+Lemma up_sample_area (ts : list rtri) : total_area (up_sample_triangles ts) = total_area ts.
+Proof.
+  unfold up_sample_triangles. rewrite !total_area_app.
+  rewrite !total_area_map_child; [lra| | | |]; intros t; unfold children4; cbn; auto.
+Qed.
+
+Lemma up_sample_members {O : NumOps} (ts : list (@tri O)) c :
+  In c (up_sample_triangles ts) <->
+  exists t, In t ts /\ (c = child_a t \/ c = child_b t \/ c = child_c t \/ c = child_d t).
+Proof.
+  unfold up_sample_triangles. rewrite !in_app_iff, !in_map_iff. split.
+  - intros [[t [E H]]|[[t [E H]]|[[t [E H]]|[t [E H]]]]]; exists t; split; auto.
+  - intros [t [H [E|[E|[E|E]]]]]; subst c.
+    + left; exists t; auto.
+    + right; left; exists t; auto.
+    + right; right; left; exists t; auto.
+    + right; right; right; exists t; auto.
+Qed.
+
+Lemma up_sample_members4 (ts : list rtri) c :
+  In c (up_sample_triangles ts) <-> exists t, In t ts /\ In c (children4 t).
+Proof.
+  rewrite up_sample_members. unfold children4. split; intros [t [H K]]; exists t; split; auto; cbn in *.
+  - destruct K as [K|[K|[K|K]]]; subst; auto.
+  - destruct K as [K|[K|[K|[K|[]]]]]; subst; auto.
+Qed.
+
+(* every corner of every parent is a corner of one of its children *)
+Lemma corners_kept (t : rtri) (p : rpt) : is_corner p t -> exists c, In c (children4 t) /\ is_corner p c.
+Proof.
+  unfold is_corner, children4. intros [H|[H|H]]; subst p.
+  - exists (child_d t). split; [cbn; auto|]. left. reflexivity.
+  - exists (child_a t). split; [cbn; auto|]. left. reflexivity.
+  - exists (child_b t). split; [cbn; auto|]. left. reflexivity.
+Qed.
+
+(* the four children are the midpoint subdivision *)
+Lemma children_are_subdivision (t : rtri) : same_triangle_set (children4 t) (subdivision t).
+Proof.
+  destruct t as [[[x0 y0] [x1 y1]] [x2 y2]].
+  unfold same_triangle_set, children4, subdivision. split.
+  - intros s [H|[H|[H|[H|[]]]]]; subst s.
+    + eexists. split; [right; left; reflexivity|]. rsimp. left. reflexivity.
+    + eexists. split; [right; right; left; reflexivity|]. rsimp. left. reflexivity.
+    + eexists. split; [right; right; right; left; reflexivity|]. rsimp. left. reflexivity.
+    + eexists. split; [left; reflexivity|]. rsimp. left. reflexivity.
+  - intros s [H|[H|[H|[H|[]]]]]; subst s.
+    + exists (child_d (x0, y0, (x1, y1), (x2, y2))). split; [cbn; auto|]. rsimp. left. reflexivity.
+    + exists (child_a (x0, y0, (x1, y1), (x2, y2))). split; [cbn; auto|]. rsimp. left. reflexivity.
+    + exists (child_b (x0, y0, (x1, y1), (x2, y2))). split; [cbn; auto|]. rsimp. left. reflexivity.
+    + exists (child_c (x0, y0, (x1, y1), (x2, y2))). split; [cbn; auto|]. rsimp. left. reflexivity.
+Qed.
+
+(* ------------------------------------------------------------------ the subdivision tiles the parent *)
+Lemma subdivision_signed2 (t c : rtri) : In c (subdivision t) -> signed2 c = signed2 t / 4.
+Proof.
+  destruct t as [[[x0 y0] [x1 y1]] [x2 y2]]. unfold subdivision.
+  intros [H|[H|[H|[H|[]]]]]; subst c; rsimp; field.
+Qed.
+
+Ltac pteq := unfold comb; rsimp; f_equal; field.
+
+Lemma subdivision_inside_parent (t c : rtri) (p : rpt) :
+  In c (subdivision t) -> inside c p -> inside t p.
+Proof.
+  destruct t as [[[x0 y0] [x1 y1]] [x2 y2]]. unfold subdivision, inside.
+  intros [H|[H|[H|[H|[]]]]] (a & b & g & Ha & Hb & Hg & Hs & Hp); subst c p.
+  - exists (a + b / 2 + g / 2), (b / 2), (g / 2). repeat split; try lra. pteq.
+  - exists (g / 2), (a + b / 2 + g / 2), (b / 2). repeat split; try lra. pteq.
+  - exists (b / 2), (g / 2), (a + b / 2 + g / 2). repeat split; try lra. pteq.
+  - exists (a / 2 + g / 2), (a / 2 + b / 2), (b / 2 + g / 2). repeat split; try lra. pteq.
+Qed.
+
+Lemma subdivision_covers_parent (t : rtri) (p : rpt) :
+  inside t p -> exists c, In c (subdivision t) /\ inside c p.
+Proof.
+  destruct t as [[[x0 y0] [x1 y1]] [x2 y2]]. unfold subdivision, inside.
+  intros (a & b & g & Ha & Hb & Hg & Hs & Hp); subst p.
+  assert (Eg : g = 1 - a - b) by lra. subst g. clear Hs.
+  destruct (Rle_dec (1 / 2) a) as [A|A]; [|destruct (Rle_dec (1 / 2) b) as [B|B]; [|destruct (Rle_dec (1 / 2) (1 - a - b)) as [G|G]]].
+  - eexists. split; [left; reflexivity|].
+    exists (2 * a - 1), (2 * b), (2 * (1 - a - b)). repeat split; try lra. pteq.
+  - eexists. split; [right; left; reflexivity|].
+    exists (2 * b - 1), (2 * (1 - a - b)), (2 * a). repeat split; try lra. pteq.
+  - eexists. split; [right; right; left; reflexivity|].
+    exists (2 * (1 - a - b) - 1), (2 * a), (2 * b). repeat split; try lra. pteq.
+  - eexists. split; [right; right; right; left; reflexivity|].
+    exists (1 - 2 * (1 - a - b)), (1 - 2 * a), (1 - 2 * b). repeat split; try lra. pteq.
+Qed.
+
+Lemma bary_unique (t : rtri) a b c a' b' c' :
+  nondegenerate t -> a + b + c = 1 -> a' + b' + c' = 1 -> comb a b c t = comb a' b' c' t ->
+  a = a' /\ b = b' /\ c = c'.
+Proof.
+  destruct t as [[[x0 y0] [x1 y1]] [x2 y2]]. unfold nondegenerate. rsimp.
+  intros D S S' E. injection E as E1 E2.
+  assert (F1 : (a - a') * (x0 - x2) + (b - b') * (x1 - x2) = 0).
+  { replace c with (1 - a - b) in E1 by lra. replace c' with (1 - a' - b') in E1 by lra. lra. }
+  assert (F2 : (a - a') * (y0 - y2) + (b - b') * (y1 - y2) = 0).
+  { replace c with (1 - a - b) in E2 by lra. replace c' with (1 - a' - b') in E2 by lra. lra. }
+  set (DD := (x1 - x0) * (y2 - y0) - (x2 - x0) * (y1 - y0)) in *.
+  assert (Xa : (a - a') * DD = 0).
+  { replace ((a - a') * DD) with (((a - a') * (x0 - x2) + (b - b') * (x1 - x2)) * (y1 - y2)
+                                   - ((a - a') * (y0 - y2) + (b - b') * (y1 - y2)) * (x1 - x2)) by (unfold DD; ring).
+    rewrite F1, F2. ring. }
+  assert (Xb : (b - b') * DD = 0).
+  { replace ((b - b') * DD) with (((a - a') * (y0 - y2) + (b - b') * (y1 - y2)) * (x0 - x2)
+                                   - ((a - a') * (x0 - x2) + (b - b') * (x1 - x2)) * (y0 - y2)) by (unfold DD; ring).
+    rewrite F1, F2. ring. }
+  apply Rmult_integral in Xa, Xb. destruct Xa as [Xa|Xa]; [|contradiction]. destruct Xb as [Xb|Xb]; [|contradiction].
+  repeat split; lra.
+Qed.
+
+(* where the open children lie in the parent's barycentric coordinates *)
+Definition region (i : nat) (a b c : R) : Prop :=
+  match i with
+  | 0%nat => 1 / 2 < a /\ 0 < b /\ 0 < c
+  | 1%nat => 1 / 2 < b /\ 0 < a /\ 0 < c
+  | 2%nat => 1 / 2 < c /\ 0 < a /\ 0 < b
+  | _ => a < 1 / 2 /\ b < 1 / 2 /\ c < 1 / 2
+  end.
+
+Lemma child_region (t c : rtri) (p : rpt) (i : nat) :
+  nth_error (subdivision t) i = Some c -> strictly_inside c p ->
+  exists a b g, a + b + g = 1 /\ p = comb a b g t /\ region i a b g.
+Proof.
+  destruct t as [[[x0 y0] [x1 y1]] [x2 y2]]. unfold subdivision, strictly_inside.
+  destruct i as [|[|[|[|i]]]]; cbn [nth_error]; intros E (a & b & g & Ha & Hb & Hg & Hs & Hp);
+    try (destruct i; discriminate); injection E as E; subst c p; unfold region.
+  - exists (a + b / 2 + g / 2), (b / 2), (g / 2). repeat split; try lra. pteq.
+  - exists (g / 2), (a + b / 2 + g / 2), (b / 2). repeat split; try lra. pteq.
+  - exists (b / 2), (g / 2), (a + b / 2 + g / 2). repeat split; try lra. pteq.
+  - exists (a / 2 + g / 2), (a / 2 + b / 2), (b / 2 + g / 2). repeat split; try lra. pteq.
+Qed.
+
+Lemma subdivision_interiors_disjoint (t c1 c2 : rtri) (p : rpt) (i j : nat) :
+  nondegenerate t -> i <> j ->
+  nth_error (subdivision t) i = Some c1 -> nth_error (subdivision t) j = Some c2 ->
+  strictly_inside c1 p -> strictly_inside c2 p -> False.
+Proof.
+  intros D N E1 E2 S1 S2.
+  destruct (child_region t c1 p i E1 S1) as (a & b & g & Hs & Hp & R1).
+  destruct (child_region t c2 p j E2 S2) as (a' & b' & g' & Hs' & Hp' & R2).
+  rewrite Hp in Hp'. destruct (bary_unique t a b g a' b' g' D Hs Hs' Hp') as (Ea & Eb & Eg). subst a' b' g'.
+  assert (Li : (i < length (subdivision t))%nat) by (apply nth_error_Some; rewrite E1; discriminate).
+  assert (Lj : (j < length (subdivision t))%nat) by (apply nth_error_Some; rewrite E2; discriminate).
+  unfold subdivision in Li, Lj. cbn [length] in Li, Lj.
+  destruct i as [|[|[|[|i]]]]; try lia; destruct j as [|[|[|[|j]]]]; try lia; unfold region in *; lra.
+Qed.
+
+Lemma up_sample_is_subdivision (ts : list rtri) :
+  same_triangle_set (up_sample_triangles ts) (flat_map subdivision ts).
+Proof.
+  split.
+  - intros s Hs. apply up_sample_members4 in Hs. destruct Hs as [t [Ht Hc]].
+    destruct (children_are_subdivision t) as [H1 _]. destruct (H1 s Hc) as [u [Hu Hp]].
+    exists u. split; auto. apply in_flat_map. exists t. auto.
+  - intros u Hu. apply in_flat_map in Hu. destruct Hu as [t [Ht Hu]].
+    destruct (children_are_subdivision t) as [_ H2]. destruct (H2 u Hu) as [s [Hs Hp]].
+    exists s. split; auto. apply up_sample_members4. exists t. auto.
+Qed.
+
+(* ------------------------------------------------------------------ np.unique / return_inverse *)
+Section UniqueFacts.
+  Context {A : Type} (ltb eqb : A -> A -> bool).
+  Hypothesis eqb_eq : forall x y, eqb x y = true <-> x = y.
+
+  Lemma in_ins x p l : In x (ins ltb eqb p l) <-> x = p \/ In x l.
+  Proof.
+    induction l as [|q l IH]; cbn [ins].
+    - cbn. intuition.
+    - destruct (ltb p q).
+      + cbn. intuition.
+      + destruct (eqb p q) eqn:E.
+        * apply eqb_eq in E. subst q. cbn. intuition.
+        * cbn. rewrite IH. intuition.
+  Qed.
+  Lemma in_unique x l : In x (unique ltb eqb l) <-> In x l.
+  Proof.
+    unfold unique. induction l as [|q l IH]; cbn [fold_right]; [tauto|].
+    rewrite in_ins, IH. cbn. intuition.
+  Qed.
+  Lemma index_of_nth p l d : In p l -> nth (index_of eqb p l) l d = p.
+  Proof.
+    induction l as [|q l IH]; intros H; [destruct H|]. cbn [index_of].
+    destruct (eqb p q) eqn:E.
+    - apply eqb_eq in E. subst. reflexivity.
+    - cbn [nth]. apply IH. destruct H as [H|H]; auto. subst q.
+      assert (X : eqb p p = true) by (apply eqb_eq; reflexivity). congruence.
+  Qed.
+  Lemma index_of_lt p l : In p l -> (index_of eqb p l < length l)%nat.
+  Proof.
+    induction l as [|q l IH]; intros H; [destruct H|]. cbn [index_of length].
+    destruct (eqb p q) eqn:E; [lia|]. apply -> Nat.succ_lt_mono. apply IH.
+    destruct H as [H|H]; auto. subst q.
+    assert (X : eqb p p = true) by (apply eqb_eq; reflexivity). congruence.
+  Qed.
+End UniqueFacts.
+
+Lemma pt_eqb_eq (p q : rpt) : @pt_eqb ROps p q = true <-> p = q.
+Proof.
+  destruct p as [a b], q as [c d]. unfold pt_eqb. cbn [eqb ROps fst snd].
+  rewrite andb_true_iff, !Reqb_true. split; [intros [-> ->]; reflexivity|intros E; injection E; auto].
+Qed.
+
+Lemma tri_eta {O : NumOps} (t : @tri O) : (v0 t, v1 t, v2 t) = t.
+Proof. destruct t as [[a b] c]. reflexivity. Qed.
+
+Lemma in_flatten {O : NumOps} (ts : list (@tri O)) t :
+  In t ts -> In (v0 t) (flatten ts) /\ In (v1 t) (flatten ts) /\ In (v2 t) (flatten ts).
+Proof.
+  intros H. unfold flatten. rewrite !in_flat_map. repeat split; exists t; cbn; auto.
+Qed.
+
+(* vertices[indices] after de-duplication gives back the triangles that were de-duplicated *)
+Lemma reindex_triangles (ts : list rtri) : a_triangles (reindex ts) = ts.
+Proof.
+  unfold reindex, a_triangles. cbn [fst snd]. rewrite map_map.
+  transitivity (map (fun t : rtri => t) ts); [|apply map_id]. apply map_ext_in. intros t Ht.
+  destruct (in_flatten ts t Ht) as (H0 & H1 & H2).
+  unfold row_tri, i0, i1, i2, getv, index_pt, unique_pts. cbn [fst snd].
+  rewrite !(index_of_nth _ pt_eqb_eq) by (apply (in_unique _ _ pt_eqb_eq); assumption).
+  apply tri_eta.
+Qed.
+
+Lemma reindex_idx_ok (ts : list rtri) r :
+  In r (fst (reindex ts)) ->
+  (i0 r < length (snd (reindex ts)) /\ i1 r < length (snd (reindex ts)) /\ i2 r < length (snd (reindex ts)))%nat.
+Proof.
+  unfold reindex. cbn [fst snd]. rewrite in_map_iff. intros [t [E Ht]]. subst r.
+  destruct (in_flatten ts t Ht) as (H0 & H1 & H2). unfold i0, i1, i2, index_pt, unique_pts. cbn [fst snd].
+  repeat split; apply (index_of_lt _ pt_eqb_eq); apply (in_unique _ _ pt_eqb_eq); assumption.
+Qed.
+
+Lemma a_up_sample_triangles (A : @atri ROps) :
+  a_triangles (a_up_sample A) = up_sample_triangles (a_triangles A).
+Proof. unfold a_up_sample. apply reindex_triangles. Qed.
+
+(* ------------------------------------------------------------------ neighbourhoods *)
+Lemma refl_signed2 (t : rtri) :
+  signed2 (refl0 t) = - signed2 t /\ signed2 (refl1 t) = - signed2 t /\ signed2 (refl2 t) = - signed2 t.
+Proof. destruct t as [[[x0 y0] [x1 y1]] [x2 y2]]. rsimp. repeat split; ring. Qed.
+
+Lemma refl_edge_neighbour (t : rtri) :
+  edge_neighbour 0 t (refl0 t) /\ edge_neighbour 1 t (refl1 t) /\ edge_neighbour 2 t (refl2 t).
+Proof.
+  destruct t as [[[x0 y0] [x1 y1]] [x2 y2]]. unfold edge_neighbour, point_reflection. rsimp.
+  repeat split; f_equal; field.
+Qed.
+
+Lemma edge_neighbour_unique (k : nat) (t n : rtri) :
+  edge_neighbour k t n -> n = nth k [refl0 t; refl1 t; refl2 t] (refl2 t).
+Proof.
+  destruct t as [[[x0 y0] [x1 y1]] [x2 y2]], n as [[[a0 b0] [a1 b1]] [a2 b2]].
+  unfold edge_neighbour, point_reflection. destruct k as [|[|k]]; rsimp.
+  - intros (E1 & E2 & E3). injection E1 as -> ->. injection E2 as -> ->. injection E3 as F1 F2.
+    cbn [nth]. replace a0 with (x1 + x2 - x0) by lra. replace b0 with (y1 + y2 - y0) by lra. reflexivity.
+  - intros (E1 & E2 & E3). injection E1 as -> ->. injection E2 as -> ->. injection E3 as F1 F2.
+    cbn [nth]. replace a1 with (x0 + x2 - x1) by lra. replace b1 with (y0 + y2 - y1) by lra. reflexivity.
+  - intros (E1 & E2 & E3). injection E1 as -> ->. injection E2 as -> ->. injection E3 as F1 F2.
+    replace a2 with (x0 + x1 - x2) by lra. replace b2 with (y0 + y1 - y2) by lra.
+    cbn [nth]. destruct k as [|k]; [reflexivity|destruct k; reflexivity].
+Qed.
+
+Lemma self_or_neighbour_iff (t n : rtri) :
+  self_or_neighbour t n <-> (n = refl0 t \/ n = refl1 t \/ n = refl2 t \/ n = t).
+Proof.
+  unfold self_or_neighbour. destruct (refl_edge_neighbour t) as (R0 & R1 & R2). split.
+  - intros [H|[H|[H|H]]]; auto; apply edge_neighbour_unique in H; cbn [nth] in H; auto.
+  - intros [H|[H|[H|H]]]; subst n; auto.
+Qed.
+
+Lemma neighborhood_members {O : NumOps} (ts : list (@tri O)) n :
+  In n (neighborhood_triangles ts) <->
+  exists t, In t ts /\ (n = refl0 t \/ n = refl1 t \/ n = refl2 t \/ n = t).
+Proof.
+  unfold neighborhood_triangles. rewrite !in_app_iff, !in_map_iff. split.
+  - intros [[t [E H]]|[[t [E H]]|[[t [E H]]|H]]]; [exists t|exists t|exists t|exists n]; split; auto.
+  - intros [t [H [E|[E|[E|E]]]]]; subst n.
+    + left; exists t; auto.
+    + right; left; exists t; auto.
+    + right; right; left; exists t; auto.
+    + right; right; right; auto.
+Qed.
+
+Lemma neighborhood_spec (ts : list rtri) n :
+  In n (neighborhood_triangles ts) <-> exists t, In t ts /\ self_or_neighbour t n.
+Proof.
+  rewrite neighborhood_members. split; intros [t [H K]]; exists t; split; auto; apply self_or_neighbour_iff; auto.
+Qed.
+
+Definition perm3 {A} (s r : A * A * A) : Prop :=
+  let '(a, b, c) := r in
+  s = (a, b, c) \/ s = (a, c, b) \/ s = (b, a, c) \/ s = (b, c, a) \/ s = (c, a, b) \/ s = (c, b, a).
+
+Lemma triple_eq {A} (a b c a' b' c' : A) : a = a' -> b = b' -> c = c' -> (a, b, c) = (a', b', c').
+Proof. intros -> -> ->. reflexivity. Qed.
+Ltac try_disj :=
+  match goal with
+  | |- _ \/ _ => (left; solve [apply triple_eq; lia]) || (right; try_disj)
+  | |- _ => solve [apply triple_eq; lia]
+  end.
+
+Lemma sort3_perm (r : idx3) : perm3 (sort3 r) r.
+Proof.
+  destruct r as [[a b] c]. unfold perm3, sort3, i0, i1, i2. cbn [fst snd].
+  destruct (Nat.min_spec b c) as [[? ->]|[? ->]]; destruct (Nat.max_spec b c) as [[? ->]|[? ->]]; try lia;
+  match goal with |- context [Nat.min a ?x] => destruct (Nat.min_spec a x) as [[? ->]|[? ->]] end;
+  match goal with |- context [Nat.max a ?x] => destruct (Nat.max_spec a x) as [[? ->]|[? ->]] end;
+  try lia; try_disj.
+Qed.
+
+Lemma row_tri_perm (u : list rpt) (s r : idx3) : perm3 s r -> tri_perm (row_tri u s) (row_tri u r).
+Proof.
+  destruct r as [[a b] c]. unfold perm3, tri_perm, row_tri, i0, i1, i2. cbn [fst snd].
+  intros [H|[H|[H|[H|[H|H]]]]]; subst s; cbn [fst snd]; auto 10.
+Qed.
+
+Lemma idx3_eqb_eq (r s : idx3) : idx3_eqb r s = true <-> r = s.
+Proof.
+  destruct r as [[a b] c], s as [[d e] f]. unfold idx3_eqb, i0, i1, i2. cbn [fst snd].
+  rewrite !andb_true_iff, !Nat.eqb_eq. split; [intros [[-> ->] ->]; reflexivity|intros E; injection E; auto].
+Qed.
+
+Lemma a_neighborhood_exact (A : @atri ROps) :
+  same_triangle_set (a_triangles (a_neighborhood A)) (neighborhood_triangles (a_triangles A)).
+Proof.
+  unfold a_neighborhood. set (ts := neighborhood_triangles (a_triangles A)).
+  pose proof (reindex_triangles ts) as RT.
+  set (r := reindex ts) in *. unfold a_triangles in *. cbn [fst snd] in *. split.
+  - intros s Hs. apply in_map_iff in Hs. destruct Hs as [q [Es Hq]].
+    apply (proj1 (in_unique idx3_ltb idx3_eqb idx3_eqb_eq _ _)) in Hq. apply in_map_iff in Hq. destruct Hq as [r0 [Eq Hr0]].
+    exists (row_tri (snd r) r0). split.
+    + rewrite <- RT. apply in_map. exact Hr0.
+    + subst s q. apply row_tri_perm. apply sort3_perm.
+  - intros t Ht. rewrite <- RT in Ht. apply in_map_iff in Ht. destruct Ht as [r0 [Et Hr0]].
+    exists (row_tri (snd r) (sort3 r0)). split.
+    + apply in_map. apply (proj2 (in_unique idx3_ltb idx3_eqb idx3_eqb_eq _ _)). apply in_map. exact Hr0.
+    + subst t. apply row_tri_perm. apply sort3_perm.
+Qed.
